@@ -433,3 +433,109 @@ pub fn extra(thorough: bool, _seed: u64, deadline: Instant) -> ExtraResult {
         json,
     }
 }
+
+// ------------------------------------------------------------------------------------------
+// large transfers (E1): the BFS keeps the stream below four pages; a single write call of many
+// pages, in front of / behind partial pages, is enumerated here against the same invariants
+
+/// one write call of k pages +-1 byte (k up to 100) behind a prefix of 0 / 1 / 1019 / 1020 / 1021
+/// bytes, delivered by `write` in one call or through `write_all`, followed by flush / a patch of
+/// the first bytes / a second large write; device image vs logical stream after every step
+pub fn bulk(ctx: &explore::Ctx) {
+    const PAGES: [usize; 12] = [1, 2, 3, 8, 16, 31, 32, 33, 34, 64, 65, 100];
+    let prefix = [0usize, 1, 1019, 1020, 1021][ctx.pick("prefix", 5)];
+    let k = PAGES[ctx.pick("pages", PAGES.len())];
+    let d = ctx.pick("delta", 3) as isize - 1;
+    let n = (k * 1020) as isize + d;
+    let n = n as usize;
+    let tail = ctx.pick("then", 4);
+    let chunk = [Chunk::Full, Chunk::AlwaysHalf][ctx.pick("device-chunking", 2)];
+    ctx.describe(|| format!("write({prefix}); write({n}) in one call; then {}; device {chunk:?}", ["flush", "seek(0) write(48) seek(end)", "write of the same size again", "align, physical_size"][tail]));
+    let dev = Dev::empty();
+    dev.with(|s| s.chunk = chunk);
+    let view = dev.handle();
+    let out = guarded(|| -> Result<(), String> {
+        let mut w = PagedWriter::new(dev).map_err(|e| format!("new: {e}"))?;
+        let mut r = Ref { data: Vec::new(), cur: 0, gen: 0 };
+        let mut put = |w: &mut PagedWriter<Dev>, r: &mut Ref, n: usize| -> Result<(), String> {
+            let bytes: Vec<u8> = (0..n).map(|i| fill(r.cur + i, r.gen)).collect();
+            if r.data.len() < r.cur + n {
+                r.data.resize(r.cur + n, 0);
+            }
+            r.data[r.cur..r.cur + n].copy_from_slice(&bytes);
+            r.cur += n;
+            // `write` may take less than it was given, but it must say so
+            let mut done = 0;
+            while done < n {
+                let took = w.write(&bytes[done..]).map_err(|e| format!("write({}) failed: {e}", n - done))?;
+                if took == 0 || took > n - done {
+                    return Err(format!("write({}) returned {took}", n - done));
+                }
+                done += took;
+            }
+            Ok(())
+        };
+        put(&mut w, &mut r, prefix)?;
+        put(&mut w, &mut r, n)?;
+        let check = |w: &mut PagedWriter<Dev>, r: &Ref, at: &str| -> Result<(), String> {
+            w.flush().map_err(|e| format!("flush failed {at}: {e}"))?;
+            let pos = w.physical_position().map_err(|e| format!("physical_position failed {at}: {e}"))?;
+            if pos != phys(r.cur) {
+                return Err(format!("I4: physical_position {pos} {at}, logical cursor {} is at {}", r.cur, phys(r.cur)));
+            }
+            let size = w.physical_size().map_err(|e| format!("physical_size failed {at}: {e}"))?;
+            if size != size_of(r.data.len()) {
+                return Err(format!("I4: physical_size {size} {at}, {} logical bytes need {}", r.data.len(), size_of(r.data.len())));
+            }
+            match check_image(&view.snapshot(), r) {
+                Some(m) => Err(format!("{m} ({at})")),
+                None => Ok(()),
+            }
+        };
+        check(&mut w, &r, "after the large write")?;
+        match tail {
+            0 => {}
+            1 => {
+                w.physical_seek(0).map_err(|e| format!("seek(0): {e}"))?;
+                r.cur = 0;
+                r.gen = 1;
+                put(&mut w, &mut r, 48)?;
+                let end = phys(r.data.len());
+                // the end of the stream may lie on a page boundary: the position behind the last
+                // payload byte of a full page is the start of the next page
+                let end = if r.data.len() % 1020 == 0 { size_of(r.data.len()) } else { end };
+                w.physical_seek(end).map_err(|e| format!("seek({end}): {e}"))?;
+                r.cur = r.data.len();
+                r.gen = 2;
+                put(&mut w, &mut r, 5)?;
+                check(&mut w, &r, "after patching the first 48 bytes and appending 5")?;
+            }
+            2 => {
+                put(&mut w, &mut r, n)?;
+                check(&mut w, &r, "after the second large write")?;
+            }
+            _ => {
+                w.align().map_err(|e| format!("align: {e}"))?;
+                let to = (r.cur + 3) / 4 * 4;
+                if r.data.len() < to {
+                    r.data.resize(to, 0);
+                }
+                r.cur = to;
+                check(&mut w, &r, "after align")?;
+            }
+        }
+        Ok(())
+    });
+    ctx.ops(3);
+    match out {
+        Err(pi) => ctx.violation(format!("C11/panic/{}", pi.class()), format!("page writer panicked at {} ({})", pi.loc, pi.msg)),
+        Ok(Err(m)) => {
+            let sig = m.split(':').next().unwrap_or("bulk").to_string();
+            ctx.violation(format!("C11/bulk/{}", crate::oracle::msg_class(&sig)), m)
+        }
+        Ok(Ok(())) => {
+            ctx.nontrivial();
+            ctx.observe(&view.snapshot());
+        }
+    }
+}
